@@ -152,6 +152,58 @@ def run_workers(binp, prop, tier, seed, total, sweep_max, budget_s, tmp, race=Fa
     return outs
 
 
+SUT_PREFIXES = ("github.com/f1bonacc1/process-compose/", "github.com/InVisionApp/go-health")
+HARNESS_PREFIXES = ("verifsim.", "verifrt/", "verifsim/")
+
+
+def parse_race_reports(text):
+    """Splits a worker log into runs (RACE-RUN-BEGIN/END markers) and returns, per run, the
+    signatures of the race reports in which both accesses are in code of the system under
+    test. A signature is the sorted pair '<kind> <innermost SUT function>'."""
+    runs = []
+    cur = None
+    noise = 0
+    blocks = re.split(r"^==================$", text, flags=re.M)
+    for blk in blocks:
+        for m in re.finditer(r"RACE-RUN-(BEGIN|END) idx=(\d+) seed=(\d+)", blk):
+            if m.group(1) == "BEGIN":
+                cur = {"idx": int(m.group(2)), "seed": int(m.group(3)), "sigs": []}
+                runs.append(cur)
+        if "WARNING: DATA RACE" not in blk:
+            continue
+        accs = []
+        for part in re.split(r"\n\s*\n", blk):
+            head = part.strip().split("\n")[0] if part.strip() else ""
+            mh = re.match(r"(?:WARNING: DATA RACE\n)?\s*(Read|Write|Previous read|Previous write|Atomic read|Atomic write|Previous atomic read|Previous atomic write) at ", part.strip())
+            if not mh:
+                continue
+            kind = mh.group(1).lower().replace("previous ", "").replace("atomic ", "")
+            frames = re.findall(r"^  (\S+?)\(\)\s*$", part, flags=re.M)
+            owner = None
+            for fr in frames:
+                if fr.startswith(SUT_PREFIXES):
+                    owner = ("sut", fr)
+                    break
+                if fr.startswith(HARNESS_PREFIXES):
+                    owner = ("harness", fr)
+                    break
+            if owner is None:
+                owner = ("other", frames[0] if frames else "?")
+            accs.append((kind, owner))
+        if len(accs) < 2:
+            continue
+        a, b = accs[0], accs[1]
+        if a[1][0] == "sut" and b[1][0] == "sut":
+            def short(fr):
+                return fr.replace("github.com/f1bonacc1/process-compose/src/", "").replace("github.com/InVisionApp/go-health/v2", "go-health")
+            sig = " | ".join(sorted([a[0] + " " + short(a[1][1]), b[0] + " " + short(b[1][1])]))
+            if cur is not None:
+                cur["sigs"].append(sig)
+        else:
+            noise += 1
+    return runs, noise
+
+
 def det_crosscheck(binp, prop, tier, seed, sweep_max, tmp, n):
     """Re-run the first n indices in two fresh processes with different GOMAXPROCS and compare
     the per-index trace hashes."""
@@ -221,6 +273,26 @@ def main():
         known = load_known()
         viols, known_hits = [], {}
         seen = set()
+        race_noise = 0
+        race_sigs = {}
+        if race:
+            for o in outs:
+                runs_, noise = parse_race_reports(open(o["_log"], errors="replace").read())
+                race_noise += noise
+                for r_ in runs_:
+                    for sig in r_["sigs"]:
+                        race_sigs.setdefault(sig, {"count": 0, "seed": r_["seed"], "idx": r_["idx"]})
+                        race_sigs[sig]["count"] += 1
+            for sig, info in sorted(race_sigs.items()):
+                rp = os.path.join(tmp, "replays", "race", "%s-%d.json" % (prop, info["seed"]))
+                if outs[0].get("violations") is None:
+                    outs[0]["violations"] = []
+                outs[0]["violations"].append({"prop": prop, "class": "data-race", "disc": sig, "seed": info["seed"], "idx": info["idx"],
+                    "others": info["count"] - 1, "replay": rp if os.path.exists(rp) else "",
+                    "msg": "the Go race detector reported unsynchronised conflicting accesses: " + sig})
+            stats["race_reports_sut"] = sum(i["count"] for i in race_sigs.values())
+            stats["race_reports_harness_noise"] = race_noise
+            stats["race_distinct_signatures"] = len(race_sigs)
         for o in outs:
             for v in o.get("violations") or []:
                 key = (v["prop"], v["class"], v.get("disc", ""))
@@ -242,6 +314,11 @@ def main():
             if v.get("replay") and os.path.exists(v["replay"]):
                 dst = os.path.join(VERIF, "replays", os.path.basename(v["replay"]))
                 shutil.copy(v["replay"], dst)
+                if v["class"] == "data-race":
+                    rp = json.load(open(dst))
+                    rp["expect"]["class"], rp["expect"]["discriminator"], rp["expect"]["message"] = "data-race", v["disc"], v["msg"]
+                    dst = os.path.join(VERIF, "replays", "%s-race-%s.json" % (prop, hashlib.sha1(v["disc"].encode()).hexdigest()[:10]))
+                    json.dump(rp, open(dst, "w"), indent=1)
             print("VIOLATION property=%s replay=%s" % (prop, dst))
             print("  class=%s disc=%s seed=%s (+%d more runs): %s" % (v["class"], v.get("disc", ""), v["seed"], v.get("others", 0), v["msg"]))
             rc = 1
@@ -292,6 +369,18 @@ def replay(prop, path, race):
         env.update({"VERIF_REPLAY": os.path.abspath(path), "VERIF_TMP": tmp})
         p = subprocess.run([binp, "-test.run", "^TestReplay$", "-test.timeout", "0"], env=env, capture_output=True, text=True, cwd=tmp)
         out = p.stdout + p.stderr
+        rp = json.load(open(path))
+        if rp.get("expect", {}).get("class") == "data-race":
+            runs_, _ = parse_race_reports(out)
+            sigs = set(sg for r_ in runs_ for sg in r_["sigs"])
+            for sg in sorted(sigs):
+                print("REPLAY-RACE " + sg)
+            print(re.sub(r"==================.*?==================", "", out, flags=re.S)[-1500:])
+            if rp["expect"].get("discriminator") in sigs:
+                print("VIOLATION property=%s replay=%s" % (prop, path))
+                sys.exit(1)
+            print("race signature not reproduced")
+            sys.exit(0)
         sys.stdout.write(out)
         m = re.search(r"REPLAY-RESULT (\S+)(.*)", out)
         if not m:
